@@ -1396,12 +1396,16 @@ func (vx *Vaxis) Suspend() error {
 	vx.disableModes()
 	vx.exitAltScreen()
 
-	// Reset to user value, or CursorDefault.
-	_, _ = vx.tw.WriteString(tparm(cursorStyleSet, int(vx.userCursorStyle)))
+	// Reset to user value, or CursorDefault. The input goroutine stores the
+	// user's style under the mutex
+	vx.mu.Lock()
+	userStyle := vx.userCursorStyle
+	vx.mu.Unlock()
+	_, _ = vx.tw.WriteString(tparm(cursorStyleSet, int(userStyle)))
 	// Always show the cursor on exit
 	_, _ = vx.tw.WriteString(decset(cursorVisibility))
 	// Reset internal state to match reality
-	vx.cursorLast.style = vx.userCursorStyle
+	vx.cursorLast.style = userStyle
 
 	vx.tw.vx.tw.Flush()
 	signal.Stop(vx.chSigKill)
